@@ -9,8 +9,11 @@ Inductive case :=
     (* Unpack of cfg into &old; [after] is the target afterwards (also when Unpack failed) *)
 | CRound (o : ropts) (t : ty) (v : gv) (cfg : option value) (observed : uobs)
     (* v merged into an empty config (cfg), unpacked into a zero value of the same type *)
-| CFault (o : ropts) (t : ty) (cfg : value) (fault_path : string) (source : string) (observed : uobs) (message : string).
+| CFault (o : ropts) (t : ty) (cfg : value) (fault_path : string) (source : string) (observed : uobs) (message : string)
     (* a valid (config, type) pair with one fault injected at fault_path; loaded with MetaData source *)
+| CHooked (what : string) (t : ty) (old : gv) (observed : uobs) (after : gv).
+    (* a hand-written target type with Validate / InitDefaults hooks (outside the model):
+       only the implementation's before/after observations *)
 
 Fixpoint gv_eqb (a b : gv) {struct a} : bool :=
   match a, b with
@@ -42,10 +45,11 @@ Definition model_unpack (c : case) : res gv :=
   | CRound o t _ (Some cfg) _ => unpack o (TPtr t) (GPtr (zero t)) cfg
   | CRound _ _ _ None _ => OutOfModel
   | CFault o t cfg _ _ _ _ => unpack o (TPtr t) (GPtr (zero t)) cfg
+  | CHooked _ _ _ _ _ => OutOfModel
   end.
 
 Definition observed_of (c : case) : uobs :=
-  match c with CUnpack _ _ _ _ ob _ | CRound _ _ _ _ ob | CFault _ _ _ _ _ ob _ => ob end.
+  match c with CUnpack _ _ _ _ ob _ | CRound _ _ _ _ ob | CFault _ _ _ _ _ ob _ | CHooked _ _ _ ob _ => ob end.
 
 Definition model_agrees (c : case) : bool :=
   match model_unpack c, observed_of c with
@@ -61,7 +65,10 @@ Definition model_agrees (c : case) : bool :=
   end.
 
 Definition skipped (c : case) : bool :=
-  match model_unpack c with OutOfModel => true | _ => false end.
+  match c with
+  | CHooked _ _ _ _ _ => false
+  | _ => match model_unpack c with OutOfModel => true | _ => false end
+  end.
 
 (** C04: every reachable struct field satisfies its validators (post-hoc, on the result) *)
 Definition valid_deep (o : ropts) (t : ty) (v : gv) : bool :=
@@ -71,6 +78,19 @@ Definition prop_c04 (c : case) : bool :=
   match c with
   | CUnpack o t _ _ (UOk v) _ => valid_deep o t v
   | CUnpack _ _ _ _ UPanic _ => false
+  (* every reachable value implementing Validate() accepts (the hooks of the hand-written
+     targets: vRange requires Min <= Max, vOuter rejects the label "forbidden") *)
+  | CHooked _ _ _ (UOk v) _ =>
+    let range_ok (x : gv) := match x with
+                             | GStructV [GP (CI mn); GP (CI mx); _] => mn <=? mx
+                             | _ => true end in
+    match v with
+    | GStructV [GP (CS label); r; p; _] =>
+      negb (String.eqb label "forbidden") && range_ok r &&
+      match p with GPtr x => range_ok x | _ => true end
+    | _ => range_ok v
+    end
+  | CHooked _ _ _ UPanic _ => false
   | _ => true
   end.
 
